@@ -334,7 +334,11 @@ impl PacketReceiver {
                     let channel_delta = packet_id::sub(sequence_id, channel_base_id);
 
                     if channel_parent_lead == 0 || channel_parent_lead > channel_delta {
-                        sink.send(self.data_entries[window_idx].data.take().unwrap());
+                        // A packet that was refused for exceeding the receive allocation is
+                        // recorded without data: it takes part in ordering but delivers nothing
+                        if let Some(data) = self.data_entries[window_idx].data.take() {
+                            sink.send(data);
+                        }
 
                         self.data_flags[flags_index] &= !flag_bit;
 
